@@ -8,6 +8,7 @@ W=/tmp/seeds/verify_wt
 PIN=/verif/tools/run_pinned.sh
 if [ ! -d $W ]; then git -C /repo worktree add --detach $W HEAD >/dev/null 2>&1 || exit 9; fi
 git -C $W checkout -q -- . ; git -C $W checkout -q --detach $(git -C /repo rev-parse HEAD); git -C $W clean -fdq -e _b -e Bin -e '_b.*' >/dev/null 2>&1
+rm -rf $W/seed_out; cp -r $S $W/seed_out   # some demos look for their sources under <worktree>/seed_out
 echo "== baseline build + demo (expect exit 0)"
 JOBS=${JOBS:-16} $PIN $W || exit 3
 bash $S/demo.sh $W > /tmp/seeds/verify_demo0.log 2>&1; d0=$?
@@ -17,10 +18,9 @@ git -C $W apply $S/patch.diff || { echo "patch does not apply"; exit 4; }
 JOBS=${JOBS:-16} $PIN $W; p1=$?
 bash $S/demo.sh $W > /tmp/seeds/verify_demo1.log 2>&1; d1=$?
 echo "pinned with change: exit=$p1 ; demo with change: exit=$d1"
+echo "== checks on the scratch worktree with the change applied (SVT_REPO=$W, separate fact cache)"
+mkdir -p /tmp/seeds/evid /tmp/seeds/cache
+[ -x /tmp/seeds/cache/svtfacts ] || cp /verif/.cache/svtfacts* /tmp/seeds/cache/ 2>/dev/null
+SVT_REPO=$W SVT_CACHE=/tmp/seeds/cache VERIF_EVID_DIR=/tmp/seeds/evid python3 /verif/tools/runall.py ${CHECKS:-} 2>&1 | tee /tmp/seeds/verify_checks.log | grep -v "exit=0 "
 git -C $W checkout -q -- .
-echo "== checks on /repo with the change applied"
-git -C /repo apply $S/patch.diff || exit 5
-mkdir -p /tmp/seeds/evid; VERIF_EVID_DIR=/tmp/seeds/evid python3 /verif/tools/runall.py ${CHECKS:-} 2>&1 | tee /tmp/seeds/verify_checks.log | grep -v "exit=0 "
-git -C /repo checkout -- .
-git -C /repo status --short | grep -v _build
 echo "RESULT demo0=$d0 pinned1=$p1 demo1=$d1"
